@@ -360,15 +360,46 @@ static enum bs_read_callback_return ws_get_mask(void *context, uint8_t *buf, siz
 	}
 }
 
+/*
+ * Everything the frame header alone decides. It is checked before the
+ * payload is requested: a frame that is refused anyway must not be read
+ * first, and a declared length beyond the read buffer would otherwise be
+ * reported as "going away" by the reader's error path instead of as the
+ * protocol error it is.
+ */
+static bool is_frame_header_invalid(const struct websocket *s)
+{
+	if (s->is_server && (s->ws_flags.mask == 0)) {
+		log_err("Frames from a client must be masked!");
+		return true;
+	}
+	if ((s->ws_flags.rsv != 0) && !s->extension_compression.accepted) {
+		log_err("Frame with RSV-bit are not supported!");
+		return true;
+	}
+	if (s->ws_flags.opcode >= WS_CLOSE_FRAME) {
+		if (s->ws_flags.fin == 0) {
+			log_err("Control Frames must not be fragmented!");
+			return true;
+		}
+		if (s->length > WS_SMALL_FRAME_SIZE) {
+			log_err("Control Frames must not carry more than 125 bytes!");
+			return true;
+		}
+		if (s->ws_flags.opcode > WS_PONG_FRAME) {
+			log_err("Unsupported websocket frame with reserved opcode!\n");
+			return true;
+		}
+	} else if (s->ws_flags.opcode > WS_BINARY_FRAME) {
+		log_err("Unsupported websocket frame with reserved opcode!\n");
+		return true;
+	}
+	return false;
+}
+
 static enum bs_read_callback_return read_mask_or_payload(struct websocket *s)
 {
-	if (unlikely((s->ws_flags.opcode >= WS_CLOSE_FRAME) && (s->length > WS_SMALL_FRAME_SIZE))) {
-		/*
-		 * Refuse an oversized control frame before its payload is requested.
-		 * Otherwise a declared length beyond the read buffer would be reported
-		 * as "going away" by the reader's error path.
-		 */
-		log_err("Control Frames must not carry more than 125 bytes!");
+	if (unlikely(is_frame_header_invalid(s))) {
 		handle_error(s, WS_CLOSE_PROTOCOL_ERROR);
 		return BS_CLOSED;
 	}
